@@ -331,7 +331,7 @@ func runC08(c *engine.Ctx) {
 					}
 					isNil, known := st.IsNil(func(v ssa.Value) bool {
 						call, _ := engine.ResultOfCall(v)
-						return call != nil && engine.CalleeFn(call) == insertFn
+						return call != nil && engine.CalleeFn(call) == insertFn && types.Identical(v.Type(), types.Universe.Lookup("error").Type())
 					})
 					if !(known && isNil) {
 						return "the proxy owner is notified on a path where the admitting checks did not return nil"
@@ -354,7 +354,7 @@ func runC08(c *engine.Ctx) {
 				},
 				Pred: func(st *engine.PathState) string {
 					r := st.Sink.(*ssa.Return)
-					v := st.Resolve(r.Results[0])
+					v := st.Resolve(r.Results[len(r.Results)-1]) // the error (last result)
 					if engine.IsNilConst(v) {
 						if !st.HasEvent("insert") {
 							return "admission reports success without having created the session"
@@ -376,13 +376,62 @@ func runC08(c *engine.Ctx) {
 		genResp := method(c, "pkg/nathole", "Controller", "GenNatHoleResponse")
 		preF := field(c, "pkg/msg", "NatHoleVisitor", "PreCheck")
 		if genResp != nil && preF != nil {
-			for _, call := range engine.CallsTo(hv, genResp) {
-				args := engine.CallArgs(call)
-				if s, ok := engine.ConstString(args[len(args)-1]); !ok || s != "" {
+			type respSite struct {
+				host *ssa.Function
+				call ssa.CallInstruction
+			}
+			var rsites []respSite
+			for _, g := range append([]*ssa.Function{hv}, allAnon(hv)...) { // the handler and the steps split out of it
+				for _, call := range engine.CallsTo(g, genResp) {
+					rsites = append(rsites, respSite{g, call})
+				}
+			}
+			// a response whose text is handed to a local reply(text) helper is judged where the helper is called
+			var expanded []struct {
+				host *ssa.Function
+				at   ssa.Instruction
+				text ssa.Value
+			}
+			for _, rs := range rsites {
+				args := engine.CallArgs(rs.call)
+				text := args[len(args)-1]
+				if pr, isP := text.(*ssa.Parameter); isP && rs.host.Parent() != nil {
+					idx := -1
+					for i, q := range rs.host.Params {
+						if q == pr {
+							idx = i
+						}
+					}
+					for _, g := range append([]*ssa.Function{hv}, allAnon(hv)...) {
+						engine.ForEachInstr(g, func(x ssa.Instruction) {
+							if cl, ok := x.(ssa.CallInstruction); ok && engine.CalleeFn(cl) == rs.host && idx >= 0 && idx < len(cl.Common().Args) {
+								expanded = append(expanded, struct {
+									host *ssa.Function
+									at   ssa.Instruction
+									text ssa.Value
+								}{g, x, cl.Common().Args[idx]})
+							}
+						})
+					}
+					continue
+				}
+				expanded = append(expanded, struct {
+					host *ssa.Function
+					at   ssa.Instruction
+					text ssa.Value
+				}{rs.host, rs.call, text})
+			}
+			for _, rs := range expanded {
+				host, at, text := rs.host, rs.at, rs.text
+				// can this response say "success" (an empty error text)?
+				if !engine.Provenance(text, engine.ProvOpts{NoArgs: true}).Consts[`""`] {
 					continue
 				}
 				okResp++
-				c.AllPaths("pkg/nathole.Controller.HandleVisitor>precheck-success", engine.PathCheck{Fn: hv, Sink: engine.Is(call), Pred: func(st *engine.PathState) string {
+				c.AllPaths("pkg/nathole.Controller.HandleVisitor>precheck-success", engine.PathCheck{Fn: host, Sink: engine.Is(at), Track: []ssa.Value{text}, Pred: func(st *engine.PathState) string {
+					if s, isC := engine.ConstString(st.Resolve(text)); !isC || s != "" {
+						return "" // an error text on this path
+					}
 					if !membershipOK(st, nallowF, userM) {
 						return "the pre-check answers success on a path where the visitor user was not checked against allowUsers"
 					}
@@ -425,7 +474,13 @@ func runC08(c *engine.Ctx) {
 					return ""
 				},
 				Pred: func(st *engine.PathState) string {
-					isNil, known := st.IsNil(func(v ssa.Value) bool { return v == ssa.Value(av) })
+					isNil, known := st.IsNil(func(v ssa.Value) bool {
+						if v == ssa.Value(av) {
+							return true
+						}
+						ex, ok := v.(*ssa.Extract)
+						return ok && ex.Tuple == ssa.Value(av) && types.Identical(ex.Type(), types.Universe.Lookup("error").Type())
+					})
 					if !known {
 						return "HandleVisitor exits without testing the admission result"
 					}
